@@ -153,10 +153,12 @@ static int hist_core(const case_t *c, int emit)
     char dig[1024]; dig[0] = 0; size_t dl = 0;
     char infos[512]; infos[0] = 0; size_t il = 0;
     long nops = 0, nfact = 0, nrefact = 0, nsolve = 0, usepr_kept = 0, usepr_changed = 0, usepr_undec = 0, inbuf_checked = 0, queries = 0;
-    size_t heap_after_rep[8]; int nrepdone = 0;
+    size_t heap_after_rep[8]; long live_after_rep[8]; int nrepdone = 0;
     int opi = 0, stop = 0;
     sluv_alloc_reset();
     if (failat > 0) sluv_alloc_fail_from(failat);
+    if (cint(c, "failsize", 0) > 0) sluv_alloc_fail_size(cint(c, "failsize", 0));
+    long live_start = sluv_alloc_live();
     size_t heap_start = heap_bytes();
     int tasks_start = count_tasks();
     long est_bytes = 0, work_allocs = 0;
@@ -423,14 +425,15 @@ static int hist_core(const case_t *c, int emit)
         }
         if (rep < 8) {
             /* leak growth is judged at the end of a repetition with everything handed back */
-            if (cint(c, "leakcheck", 0)) { destroy_factors(&H); mon_reset(); /* drops the monitor's per-thread buffers */ heap_after_rep[nrepdone++] = heap_bytes(); }
+            if (cint(c, "leakcheck", 0)) { destroy_factors(&H); mon_reset(); /* drops the monitor's per-thread buffers */ live_after_rep[nrepdone] = sluv_alloc_live(); heap_after_rep[nrepdone++] = heap_bytes(); }
         }
     }
     destroy_factors(&H);
     free(wev_keep);
     free(H.work); H.work = NULL;
     long nfailed_allocs = sluv_alloc_failed();
-    sluv_alloc_fail_from(0);
+    sluv_alloc_fail_from(0); sluv_alloc_fail_size(0);
+    jo_int("maxreq", sluv_alloc_maxreq());
     int tasks_end = count_tasks_settled(tasks_start);
     jo_str("infos", infos); jo_str("digest", dig);
     jo_int("work_allocs", work_allocs); jo_int("nops", nops); jo_int("nfact", nfact); jo_int("nrefact", nrefact); jo_int("nsolve", nsolve); jo_int("queries", queries);
@@ -444,7 +447,10 @@ static int hist_core(const case_t *c, int emit)
         jo_int("heap_precise", heap_precise());
         if (g > 0 && heap_precise()) jo_fail("C17|heap-growth", "live heap grew by %ld bytes between repetition 2 and repetition %d of the same call sequence", g, nrepdone);
     }
-    (void)heap_start;
+    /* (the count of live USER_MALLOC blocks is not usable as an oracle: the harness itself releases some library allocations with
+       free(); the sanitizer's heap statistics and LeakSanitizer decide) */
+    (void)live_after_rep;
+    (void)heap_start; (void)live_start;
     if (emit) jo_end(); else jo_quiet(0);
     Destroy_SuperMatrix_Store(&H.A); Destroy_SuperMatrix_Store(&B);
     free(b); free(b0); free(H.perm_c); free(H.perm_r); free(H.perm_r_prev); free(H.Gd); free(H.base); csc_free(&H.G);
